@@ -18,13 +18,23 @@ type Term struct {
 	P2   int
 }
 
+type termKey struct {
+	op         string
+	w          int
+	val        uint64
+	name       string
+	p1, p2     int
+	a0, a1, a2 int
+	n          int
+}
+
 type Ctx struct {
-	tab   map[string]*Term
+	tab   map[termKey]*Term
 	next  int
 	Terms []*Term
 }
 
-func NewCtx() *Ctx { return &Ctx{tab: map[string]*Term{}} }
+func NewCtx() *Ctx { return &Ctx{tab: map[termKey]*Term{}} }
 
 func mask(w int) uint64 {
 	if w >= 64 {
@@ -34,16 +44,24 @@ func mask(w int) uint64 {
 }
 
 func (c *Ctx) mk(op string, w int, val uint64, name string, p1, p2 int, args ...*Term) *Term {
-	var sb strings.Builder
-	fmt.Fprintf(&sb, "%s|%d|%d|%s|%d|%d", op, w, val, name, p1, p2)
-	for _, a := range args {
-		fmt.Fprintf(&sb, "|%d", a.ID)
+	k := termKey{op: op, w: w, val: val, name: name, p1: p1, p2: p2, a0: -1, a1: -1, a2: -1, n: len(args)}
+	switch len(args) {
+	case 3:
+		k.a2 = args[2].ID
+		fallthrough
+	case 2:
+		k.a1 = args[1].ID
+		fallthrough
+	case 1:
+		k.a0 = args[0].ID
+	case 0:
+	default:
+		panic("mk: more than three arguments")
 	}
-	k := sb.String()
 	if t, ok := c.tab[k]; ok {
 		return t
 	}
-	t := &Term{ID: c.next, Op: op, W: w, Val: val, Name: name, Args: args, P1: p1, P2: p2}
+	t := &Term{ID: c.next, Op: op, W: w, Val: val, Name: name, Args: append([]*Term(nil), args...), P1: p1, P2: p2}
 	c.next++
 	c.tab[k] = t
 	c.Terms = append(c.Terms, t)
